@@ -377,7 +377,8 @@ class ContractSet:
     def __init__(self):
         self.specs = {}      # name -> SpecDef
         self.funcs = {}      # full go/ssa function name -> FuncContract
-        self.ifaces = {}     # (iface full type string, method) -> FuncContract
+        self.ifaces = {}
+        self.functypes = {}     # (iface full type string, method) -> FuncContract
         self.lemmas = {}     # name -> LemmaDef
         self.impl = {}       # iface type string -> concrete receiver type string (assumption A1)
         self.assumptions = []  # textual list of trusted / axiom / assume-impl items
@@ -424,7 +425,7 @@ class ContractSet:
             params = p.parse_params()
             ret = p.parse_type()
             self.specs[m.group(1)] = SpecDef('ufun', m.group(1), params, ret, None, None, pkg, text)
-        elif word in ('func', 'interface'):
+        elif word in ('func', 'interface', 'functype'):
             self.parse_func(prog, pkg, word, g)
         elif word in ('lemma', 'axiom'):
             self.parse_lemma(prog, pkg, word, g)
@@ -581,6 +582,17 @@ class ContractSet:
                 fc.recv_name = names[0] if names else 'self'
                 fc.param_names = names[1:]
             self.ifaces[(its, m.group(2))] = fc
+        elif word == 'functype':
+            # functype FunctionCalculator(parameters, variantOperations): contract of every value of a named func type
+            m = re.match(r'([\w.]+)\s*\(([^)]*)\)', head)
+            if not m:
+                raise SpecError('bad functype header %r' % head)
+            fts = resolve_type(prog, pkg, Parser(m.group(1)).parse_type())
+            fc = FuncContract(('functype', fts), pkg, g[0])
+            fc.recv_name = None
+            fc.param_names = [x.strip() for x in m.group(2).split(',') if x.strip()]
+            self.functypes[fts] = fc
+            self.assumptions.append('A7: function values of type %s supplied by callers are assumed to satisfy its functype contract (the built-in ones are verified against it)' % fts.rsplit('/', 1)[-1])
         else:
             m = re.match(r'\(\s*(\w+)\s+([^)]+)\)\s*(\w+)', head)
             if m:
